@@ -243,13 +243,13 @@ Definition fk_def_ok (t : table) (f : fkey) : result unit :=
 Definition check_def_ok (k : check) : result unit :=
   if is_wrapped (check_sql (k_expr k)) then Ok tt else Err ESyntax.
 
-Definition create_table (d : db) (x : xtable) (uniques : list (list str)) : result db :=
+(** everything CREATE TABLE checks except that the name is free: the catalogue entry it would add *)
+Definition new_ctable (x : xtable) (uniques : list (list str)) : result ctable :=
   let t := x_t x in
   match t_idx t with
   | _ :: _ => Err EUnsupported
   | [] =>
   if reserved_name (t_name t) then Err EBadTable
-  else if name_used (t_name t) (db_tables d) then Err EExists
   else if negb (nodup_strs (map c_name (t_cols t))) then Err EDupColumn
   else if negb (existsb (fun c => match c_gen c with None => true | Some _ => false end) (t_cols t)) then Err EBadTable
   else match first_err (column_def_ok t) (t_cols t) with
@@ -282,8 +282,16 @@ Definition create_table (d : db) (x : xtable) (uniques : list (list str)) : resu
   if negb (forallb (fun u => forallb (has_col t) u && negb (Nat.eqb (length u) 0)) uniques) then Err ENoSuchColumn
   else
     let t' := mkTable (t_name t) (t_without_rowid t) (t_strict t) (t_cols t) pk [] (t_fks t) (t_checks t) in
-    Ok (set_tables d (db_tables d ++ [mkCT (set_x_t x t') uniques []]))
+    Ok (mkCT (set_x_t x t') uniques [])
   end end end end end
+  end.
+
+Definition create_table (d : db) (x : xtable) (uniques : list (list str)) : result db :=
+  match new_ctable x uniques with
+  | Err e => Err e
+  | Ok ct =>
+      if name_used (t_name (x_t x)) (db_tables d) then Err EExists
+      else Ok (set_tables d (db_tables d ++ [ct]))
   end.
 
 (** ** DROP TABLE *)
@@ -451,31 +459,35 @@ Fixpoint has_dup_on (cols : list str) (l : list row) : bool :=
       || has_dup_on cols l'
   end.
 
+(** what CREATE INDEX checks of the index definition itself *)
+Definition index_def_ok (t : table) (i : index) : result unit :=
+  match i_name i with
+  | [] => Err ESyntax
+  | _ =>
+    if reserved_name (i_name i) then Err EBadTable
+    else match i_parts i with
+         | [] => Err ESyntax
+         | _ => first_err (part_ok_b t) (i_parts i)
+         end
+  end.
+
 Definition create_index (d : db) (n : str) (i : index) : result db :=
   match find_ct n (db_tables d) with
   | None => Err ENoSuchTable
   | Some ct =>
       let t := ct_t ct in
-      match i_name i with
-      | [] => Err ESyntax
-      | _ =>
-        if reserved_name (i_name i) then Err EBadTable
-        else if name_used (i_name i) (db_tables d) then Err EExists
-        else match i_parts i with
-        | [] => Err ESyntax
-        | _ =>
-          match first_err (part_ok_b t) (i_parts i) with
-          | Err e => Err e
-          | Ok _ =>
-            let dup :=
-              match i_unique i, i_pred i, part_col_names (i_parts i) with
-              | true, None, Some cols => has_dup_on cols (ct_rows ct)
-              | _, _, _ => false
-              end in
-            if dup then Err EUnique
-            else Ok (set_tables d (update_ct n (fun ct => set_ct_t ct (set_t_idx (ct_t ct) (t_idx (ct_t ct) ++ [i]))) (db_tables d)))
-          end
-        end
+      match index_def_ok t i with
+      | Err e => Err e
+      | Ok _ =>
+        if name_used (i_name i) (db_tables d) then Err EExists
+        else
+          let dup :=
+            match i_unique i, i_pred i, part_col_names (i_parts i) with
+            | true, None, Some cols => has_dup_on cols (ct_rows ct)
+            | _, _, _ => false
+            end in
+          if dup then Err EUnique
+          else Ok (set_tables d (update_ct n (fun ct => set_ct_t ct (set_t_idx (ct_t ct) (t_idx (ct_t ct) ++ [i]))) (db_tables d)))
       end
   end.
 
